@@ -15,6 +15,7 @@
 import MdwModel.Model.Exception
 import MdwModel.Theorems.CtxLayout
 import MdwModel.Theorems.Image
+import MdwModel.Theorems.Refine
 namespace Mdw
 
 /-- **C07 (IP window).** -/
@@ -123,5 +124,15 @@ theorem C07_image_thread_regions (d : DumpIn) (k : Nat) (t : DThread) (hk : d.th
 theorem C07_image_app_regions (d : DumpIn) (j : Nat) (a : Nat) (b : Bytes) (hj : d.app[j]? = some (a, b)) :
     (⟨a, b.length, (acc2 d).pos + appOff d.app j⟩ : Desc) ∈ (acc3 d).blocks ∧
     At (dumpBytes d) ((acc2 d).pos + appOff d.app j) b := Image_app_block d j a b hj
+
+
+/-- **C07 (the writers refine the image model).** the builder operations of `memory_list_stream::write` and
+    `app_memory::write` produce exactly the memory-list stage / application-memory stage of the image model -/
+theorem C07_refine_memory_list (b : Buf) (blocks : List Desc) (hb : b.len + 4 + 16 * blocks.length < 2 ^ 32) :
+    opMemoryList b blocks = some (⟨b.inner ++ memoryListStream blocks⟩, ⟨ST_MEMORY_LIST, 4 + 16 * blocks.length, b.len⟩) :=
+  Refine_memory_list b blocks hb
+
+theorem C07_refine_app_memory (b : Buf) (app : List (Nat × Bytes)) (hb : b.len + (appBlobs app).length < 2 ^ 32) :
+    opApp b app = (⟨b.inner ++ appBlobs app⟩, appBlocksAt b.len app) := Refine_app_memory b app hb
 
 end Mdw
